@@ -17,9 +17,6 @@ Record obs := O {
 
 Inductive case := C (ops : list op) (observed : list obs).
 
-Definition rev_eqb (a b : rev) : bool :=
-  (r_gen a =? r_gen b) && (r_parent a =? r_parent b) && Bool.eqb (r_del a) (r_del b) && (r_body a =? r_body b).
-
 Definition obs_eqb (a b : obs) : bool :=
   (o_st a =? o_st b) && (o_body a =? o_body b) && Bool.eqb (o_hassync a) (o_hassync b) && (o_cur a =? o_cur b) &&
   list_eqb rev_eqb (o_hist a) (o_hist b) &&
@@ -64,7 +61,7 @@ Fixpoint trace (s : state) (lastseq : N) (ops : list op) : list obs :=
   match ops with
   | [] => []
   | o :: rest =>
-      let '(s', r, fired) := step ccrc cdel s o in
+      let '(s', r, fired) := step code_fixed ccrc cdel s o in
       let '(ob, ls) := project lastseq s' r (imports s) fired in
       ob :: trace s' ls rest
   end.
